@@ -5,6 +5,7 @@ import (
 	"encoding/json"
 	"fmt"
 	"os"
+	"regexp"
 	"sort"
 	"strings"
 	"testing"
@@ -131,6 +132,7 @@ func runHeapCase(t *testing.T, c heapCase) (coq string, problems []string, flags
 			reader  state.State // where gets come from
 			done    chan error
 			slots   = map[int]bool{}
+			getN    int
 		)
 
 		id := func(slot int) string { return fmt.Sprintf("r%d", slot) }
@@ -177,6 +179,23 @@ func runHeapCase(t *testing.T, c heapCase) (coq string, problems []string, flags
 			}
 
 			synctest.Wait()
+
+			getN++
+
+			// every other read goes through a filtered List (ID query / label query) instead of Get
+			if getN%2 == 0 {
+				opts := []state.ListOption{state.WithIDQuery(resource.IDRegexpMatch(regexp.MustCompile("^" + id(slot) + "$")))}
+				if getN%4 == 0 {
+					opts = append(opts, state.WithLabelQuery(resource.LabelExists("nosuchlabel", resource.NotMatches)))
+				}
+
+				l, err := reader.List(ctx, resource.NewMetadata("n1", "T", "", resource.VersionUndefined), opts...)
+				if err != nil || len(l.Items) != 1 {
+					return nil
+				}
+
+				return l.Items[0]
+			}
 
 			r, err := reader.Get(ctx, resource.NewMetadata("n1", "T", id(slot), resource.VersionUndefined))
 			if err != nil {
